@@ -440,6 +440,16 @@ class Check:
         else:
             self.violations.append({"what": what})
 
+    def divergence(self, spec: str, what: str, features: dict, detail: Any):
+        """Record a disagreement between the implementation and a *growth* specification on a clause that
+        lies outside the statement of this check's property.  It is reported (stdout line
+        `GROWTH-DIVERGENCE`, evidence field `growth_divergences`, a replay file) but it is not a violation
+        of the property: the exit code and the VIOLATION lines are unaffected."""
+        if not hasattr(self, "divergences"):
+            self.divergences = []
+        self.divergences.append({"spec": spec, "what": what, "features": features,
+                                 "detail": detail if len(self.divergences) < 20 else None})
+
     # --- finishing -----------------------------------------------------------------------
     def finish(self) -> int:
         shutil.rmtree(self.scratch, ignore_errors=True)
@@ -454,6 +464,23 @@ class Check:
             "known_findings_hit": dict(self.known_hits),
             "notes": self.notes,
         }
+        divs = getattr(self, "divergences", [])
+        ev["growth_divergences"] = len(divs)
+        if divs:
+            os.makedirs(os.path.join(VERIF, "replays"), exist_ok=True)
+            seen = set()
+            for d in divs:
+                key = (d["spec"], d["what"])
+                if key in seen or d["detail"] is None:
+                    continue
+                seen.add(key)
+                h = hashlib.sha1(skey([d["spec"], d["what"], d["features"]]).encode()).hexdigest()[:10]
+                path = os.path.join(VERIF, "replays", "growth-%s-%s.json" % (d["spec"], h))
+                with open(path, "w") as f:
+                    json.dump({"growth_spec": d["spec"], "run_under": self.pid, "tier": self.tier, **d}, f, indent=1, default=str)
+                if len(seen) <= 8:
+                    print("GROWTH-DIVERGENCE spec=%s replay=%s  (%s; outside the statement of %s, not counted as a violation)" % (
+                        d["spec"], path, d["what"], self.pid))
         os.makedirs(os.path.join(VERIF, "evidence"), exist_ok=True)
         with open(os.path.join(VERIF, "evidence", self.pid + ".json"), "w") as f:
             json.dump(ev, f, indent=1, default=str)
